@@ -9,11 +9,12 @@ CONSTANTS
   MaxSegs = 0
   Pool <- PoolQuick
   MaxParts = 0
+  Pool2 <- PoolNone
+  MaxParts2 = 0
   MetaAlphabet = {}
   MaxMeta = 0
   MetaRuns = {}
 INIT TInit
 NEXT TNext
-INVARIANTS TypeOK ValidIsDocumentedRule NoSeparatorInAccepted ResolversAgree MultiIsNormalised
-           MetadataIgnoredConsistently SplitJoin MetaGrammar MetaOps NoOrgIsRefused Agrees
+INVARIANTS TypeOK NoSeparatorInAccepted ResolversAgree MetadataIgnoredConsistently NoOrgIsRefused Agrees
 CHECK_DEADLOCK FALSE
